@@ -62,6 +62,27 @@ func (e ExitReason) GetHostCallID() uint8 {
 	return uint8(e)
 }
 
+// hostCallValueMask keeps a host-call identifier out of the reason-type octet.
+const hostCallValueMask = ExitReason(1)<<56 - 1
+
+// MakeHostCallReason builds the host-call exit reason for an ecalli immediate.
+// The immediate is sign-extended to 64 bits: identifiers that do not fit the
+// value field are all unknown host calls and are folded onto one value beyond
+// every table, so that they can never be taken for another identifier or
+// change the reason type.
+func MakeHostCallReason(immediate uint64) ExitReason {
+	if immediate >= uint64(hostCallValueMask) {
+		immediate = uint64(hostCallValueMask)
+	}
+	return ExitHostCall | ExitReason(immediate)
+}
+
+// GetHostCallIndex returns the whole host-call identifier (GetHostCallID keeps
+// only its low octet).
+func (e ExitReason) GetHostCallIndex() uint64 {
+	return uint64(e & hostCallValueMask)
+}
+
 func (e ExitReason) GetPageFaultAddress() uint32 {
 	return uint32(e)
 }
